@@ -65,6 +65,10 @@ SCENARIOS = {
     # error updates are asynchronous messages too: they never answer a request, also not an experimental one
     'unknown_errupdate': dict(callers=[('foo', 'm:p1'), ('read', 'm:p2')], xreply=True, errupd_before_reply=True),
     # a request that timed out must not block a later request with the same key
+    # nobody connects beforehand: the first requests do - several at the same time - and all are served over ONE
+    # connection; the shutdown leaves no worker thread behind
+    'lazy_connect': dict(lazy=True, callers=[('read', 'm:p1'), ('read', 'm:p2'), ('change', 'm:p1')], user=True, user_after=1.0),
+    'lazy_connect_same': dict(lazy=True, callers=[('read', 'm:p1'), ('read', 'm:p1')], user=True, user_after=1.0),
     'timeout_then_same': dict(callers=[('read', 'm:p1'), ('read', 'm:p1', 11.5)], ignore=[1]),
     # the answer to a request that timed out arrives late, while the next request with the same key is waiting behind it
     'late_reply_same': dict(callers=[('read', 'm:p1'), ('read', 'm:p1', 10.1)], late={1: 10.4}),
